@@ -63,8 +63,6 @@ structure TextParam where
   floatText : Atom → Txt
   readFloat : Txt → Nat → Bool → Nat → Nat → Txt → R Value
 
-def hasDot (s : Txt) : Bool := s.contains 46
-
 def rmap {α β : Type} (f : α → β) : R α → R β
   | .ok a => .ok (f a)
   | .err => .err
